@@ -7,7 +7,9 @@ use nom::{
 };
 
 use crate::input::Input;
+use crate::intermediate::BLOCK_COMMENT_START;
 
+use super::common::comment;
 use super::error::{ErrorTree, ParserResult};
 
 #[allow(dead_code)]
@@ -172,6 +174,14 @@ pub fn take_until_unbalanced<'a>(
         let mut bracket_counter = 0;
         'consume: loop {
             let input = i.slice(index..);
+
+            // notation between braces may hold comments, and a comment may hold a brace
+            if opening_tag != BLOCK_COMMENT_START {
+                if let Ok((rest, _)) = comment(input.clone()) {
+                    index = i.len() - rest.len();
+                    continue 'consume;
+                }
+            }
 
             if tag::<&str, Input<'_>, Error<Input<'_>>>(opening_tag)(input.clone()).is_ok() {
                 bracket_counter += 1;
